@@ -2,7 +2,7 @@
     table that is a permutation, and every cut-off) returns valid, token-equal matchings. *)
 From Coq Require Import Lia Arith Sorted Permutation.
 From Verif Require Import Base.Prelude Model.Diff
-     Proofs.DiffBase Proofs.DiffA2 Proofs.DiffA4 Proofs.DiffThm Proofs.DiffB1 Proofs.DiffB2 Proofs.DiffB3 Proofs.DiffB5.
+     Proofs.DiffBase Proofs.DiffA2 Proofs.DiffA4 Proofs.DiffThm Proofs.DiffB1 Proofs.DiffB2 Proofs.DiffB3 Proofs.DiffB5 Proofs.DiffB6.
 
 Section Any.
   Context {T : Type} (eqb : T -> T -> bool).
@@ -51,4 +51,52 @@ Qed.
 Theorem M_hist_self a : M_hist a a = identity_matching (length a).
 Proof.
   apply (collect_unchanged_words_self bytes_eqb bytes_eqb_spec (fun h => h) (fun h => Permutation_refl h)).
+Qed.
+
+(** * Determinism: the hunks do not depend on the table's iteration order *)
+Lemma fold_left_ext {A B} (f g : A -> B -> A) : (forall a b, f a b = g a b) ->
+  forall l a, fold_left f l a = fold_left g l a.
+Proof. intros H. induction l as [|x l IH]; intros a; cbn [fold_left]; [reflexivity|]. now rewrite H, IH. Qed.
+
+Section Ext.
+  Variables M1 M2 : list bytes -> list bytes -> list (nat * nat).
+  Hypothesis HM : forall a b, M1 a b = M2 a b.
+
+  Lemma diff_regions_ext tok cmp ins : diff_regions M1 tok cmp ins = diff_regions M2 tok cmp ins.
+  Proof.
+    unfold diff_regions. destruct ins as [|base [|first tail]]; try reflexivity.
+    f_equal. f_equal. f_equal. f_equal. rewrite HM. apply fold_left_ext. intros cur o. now rewrite HM.
+  Qed.
+
+  Lemma refine_go_ext tok cmp ins : forall rest u,
+    refine_go M1 tok cmp ins u rest = refine_go M2 tok cmp ins u rest.
+  Proof.
+    induction rest as [|cur rest IH]; intros u; cbn [refine_go]; [reflexivity|].
+    now rewrite diff_regions_ext, IH.
+  Qed.
+
+  Lemma run_steps_ext s ins : run_steps M1 s ins = run_steps M2 s ins.
+  Proof.
+    unfold run_steps. destruct s as [|[t c] rest]; [reflexivity|]. rewrite diff_regions_ext.
+    apply fold_left_ext. intros regs tc. unfold refine. destruct regs as [|u0 r]; [reflexivity|].
+    now rewrite refine_go_ext.
+  Qed.
+End Ext.
+
+Theorem M_order_independent (order1 order2 : list (bytes * list nat) -> list (bytes * list nat)) :
+  (forall h, Permutation (order1 h) h) -> (forall h, Permutation (order2 h) h) ->
+  forall max_occ a b,
+    collect_unchanged_words bytes_eqb order1 max_occ a b = collect_unchanged_words bytes_eqb order2 max_occ a b.
+Proof.
+  intros P1 P2 max_occ a b.
+  apply (DiffB6.collect_unchanged_words_det bytes_eqb bytes_eqb_spec order1 order2 P1 P2).
+Qed.
+
+Theorem hunks_order_independent (order1 order2 : list (bytes * list nat) -> list (bytes * list nat)) :
+  (forall h, Permutation (order1 h) h) -> (forall h, Permutation (order2 h) h) ->
+  forall max_occ s ins,
+    hunks (run_steps (collect_unchanged_words bytes_eqb order1 max_occ) s ins)
+    = hunks (run_steps (collect_unchanged_words bytes_eqb order2 max_occ) s ins).
+Proof.
+  intros P1 P2 max_occ s ins. f_equal. apply run_steps_ext. intros a b. now apply M_order_independent.
 Qed.
